@@ -33,9 +33,9 @@ inline void flush_events(bool reset) {
     if (reset) vh::T().line("{\"e\":\"Reset\"}");
     vh::T().flush();
 }
-inline void flush_on_fault() {      // best effort: try to get the buffer mutex for a while, then go on without it
-    bool locked = false;
-    for (int i = 0; i < 200 && !(locked = evm().try_lock()); ++i) usleep(1000);
+inline void flush_on_fault(bool in_sanitizer) {      // best effort: try to get the buffer mutex for a while, then go on without it
+    bool locked = false;      // (never touch a mutex from inside a sanitizer's death callback: its runtime may hold internal locks)
+    for (int i = 0; !in_sanitizer && i < 200 && !(locked = evm().try_lock()); ++i) usleep(1000);
     auto &v = events();
     std::sort(v.begin(), v.end(), [](const Ev &a, const Ev &b) { return a.seq < b.seq; });
     std::string all;
